@@ -66,6 +66,11 @@ def gen(rng, count, quick):
                    it=rng.choice([3, 4]), dt=rng.choice([3, 4]))
         if imp == "res" and cfg["R"] == 500.0:
             cfg["I"] *= 2
+        if k % 6 == 4:
+            # two filled buckets with different currents (and an empty one between them in half of the cases): each bunch
+            # must be in equilibrium with the wake IT sees and that the file records for it
+            i0 = cfg["I"]
+            cfg["cur"] = [i0, 0.0, 0.4 * i0] if rng.random() < 0.5 else [0.4 * i0, i0]
         if k % 6 == 1:
             # many steps per period on a coarse grid with a mild current: the wake kick of ONE step is below 1e-3 cell
             # everywhere, only the sum over a period balances the RF focusing
@@ -76,22 +81,36 @@ def gen(rng, count, quick):
 
 def args_of(cfg):
     a = list(prog.BASE_ARGS) + ["-s", str(cfg["n"]), "-N", str(cfg["N"]), "-T", str(cfg["T"]), "-n", str(cfg["N"]),
-                                "-d", repr(cfg["td"] / sync_freq()), "-I", repr(cfg["I"]), "--InitialDistZoom", repr(cfg["zoom"]),
+                                "-d", repr(cfg["td"] / sync_freq()), "--InitialDistZoom", repr(cfg["zoom"]),
                                 "--PhaseSpaceShiftX", str(cfg["shx"]), "--PhaseSpaceShiftY", str(cfg["shy"]),
                                 "--InterpolationPoints", str(cfg["it"]), "--derivation", str(cfg["dt"]), "-o", "a.h5"]
+    a += ["-I"] + [repr(c) for c in cfg.get("cur", [cfg["I"]])]
     return a + IMPEDANCES[cfg["imp"]][0]
 
 
 def evaluate(cfg, D):
-    """(verdict, details): verdict None = holds, 'skip:<why>' = not stationary / not judged, else failure text"""
+    """(verdict, details) over all bunches of the run"""
+    nbun = sum(1 for c in cfg.get("cur", [cfg["I"]]) if c > 0)
+    worst = (None, {})
+    for b in range(nbun):
+        v, d = evaluate_bunch(cfg, D, b, nbun)
+        if v and not v.startswith("skip:"):
+            return ("bunch %d of %d: %s" % (b, nbun, v) if nbun > 1 else v), d
+        if v or worst[0] is None and not worst[1]:
+            worst = (v, d)
+    return worst
+
+
+def evaluate_bunch(cfg, D, b, nbun):
+    """verdict None = holds, 'skip:<why>' = not stationary / not judged, else failure text"""
     ds = D["dsets"]
     n, N = cfg["n"], cfg["N"]
     z = np.array(prog.fvals(ds["/Info/AxisValues_z"]))
-    bp = np.array(prog.fvals(ds["/BunchProfile/data"])).reshape(-1, n)
-    wk = np.array(prog.fvals(ds["/WakePotential/data"])).reshape(-1, n)
-    ln = prog.fvals(ds["/BunchLength/data"])
-    sp = prog.fvals(ds["/EnergySpread/data"])
-    pos = prog.fvals(ds["/BunchPosition/data"])
+    bp = np.array(prog.fvals(ds["/BunchProfile/data"])).reshape(-1, nbun, n)[:, b, :]
+    wk = np.array(prog.fvals(ds["/WakePotential/data"])).reshape(-1, nbun, n)[:, b, :]
+    ln = prog.fvals(ds["/BunchLength/data"])[b::nbun]
+    sp = prog.fvals(ds["/EnergySpread/data"])[b::nbun]
+    pos = prog.fvals(ds["/BunchPosition/data"])[b::nbun]
     if len(ln) < 6:
         return "skip:short", {}
     # stationarity of the recorded series (one record per synchrotron period)
